@@ -47,8 +47,11 @@ def is_fill_request_seq(seq):
     if is_source(seq):
         return False
     is_fcseq = False
-    if hasattr(seq, "__iter__"):
+    try:
         is_fcseq = any(map(is_fill_request_el, seq))
+    except TypeError:
+        # seq is non-iterable (a class has an attribute __iter__ as well)
+        pass
     if is_fill_request_el(seq):
         is_fcseq = True
     return is_fcseq
